@@ -83,6 +83,18 @@ func ResourcePayload(t *rapid.T, ts *TypeSpec, o PayloadOpts) *PayloadCase {
 
 	all := o.AllFieldsOften && rapid.Bool().Draw(t, "allfields")
 
+	// The chance of an ill-typed value is per field; a payload for a type
+	// with dozens of fields would practically never be acceptable. Two such
+	// payloads in three have well-typed values only.
+	// (free literals - other spellings, values at and beyond the ends of the
+	// ranges - for two of the attributes at most, canonical ones for the rest)
+	freeLit := -1
+
+	if len(ts.Attrs)+len(ts.Rels) > 12 && !o.Canonical && rapid.IntRange(0, 2).Draw(t, "wide-welltyped") > 0 {
+		o.IllPerTen, o.IllRelPerTen, o.OddIdentPerTen = 0, 0, 0
+		freeLit = rapid.IntRange(0, len(ts.Attrs)).Draw(t, "wide-freelit")
+	}
+
 	// The identifiers of a linkage name the relationship's target type; now
 	// and then one names something else, or nothing (the statement of no
 	// property says what must happen then, only that the entry points agree).
@@ -105,14 +117,16 @@ func ResourcePayload(t *rapid.T, ts *TypeSpec, o PayloadOpts) *PayloadCase {
 
 	attrParts := []string{}
 
-	for _, a := range ts.Attrs {
+	for ai, a := range ts.Attrs {
 		if !all && !rapid.Bool().Draw(t, "has-"+a.Name) {
 			continue
 		}
 
 		var l Lit
 
-		if o.Canonical {
+		if freeLit >= 0 && ai != freeLit && ai != freeLit+7 {
+			l = PlainLit(t, a, "lit-"+a.Name)
+		} else if o.Canonical {
 			v := Value(t, a, "val-"+a.Name)
 			b, err := json.Marshal(v)
 
